@@ -102,7 +102,7 @@ def lean_files(sub):
     return sorted(out)
 
 # ------------------------------------------------------------------ running scripts
-OPID = re.compile(r"\b1[0-9]{18}\b")
+OPID = re.compile(r"(?<![0-9])1[0-9]{18}(?![0-9])")
 
 def canon_case(lines):
     tbl = {}
